@@ -215,7 +215,7 @@ func (v *Verifier) applyGlobalHavoc(st *State, h *HeapArr, l modLoc) {
 		var keep *Term
 		switch l.kind {
 		case "userdata":
-			keep = tOr(v.internalField(p, h.Key), mk("Bool", "zz_isnew", p))
+			keep = tOr(v.internalField(p, h.Key), mk("Bool", "zz_isnew", p), mk("Bool", "(_ is zz_glob)", p))
 			for _, c := range v.localCells {
 				keep = tOr(keep, mk("Bool", "zz_under", p, c))
 			}
@@ -248,7 +248,7 @@ func (v *Verifier) applyGlobalHavoc(st *State, h *HeapArr, l modLoc) {
 			return 1
 		case "userdata":
 			// locals and objects allocated by the verified function are not user data; fields of module types neither
-			if r := rootOf(a); r.Op == "zz_new" || strings.HasPrefix(r.Op, "zz_fv_") {
+			if r := rootOf(a); r.Op == "zz_new" || r.Op == "zz_glob" || strings.HasPrefix(r.Op, "zz_fv_") {
 				return 0
 			}
 			f := v.internalField(a, h.Key)
